@@ -213,6 +213,9 @@ type Stack struct {
 	// DeadQueueBuild: a build callback ran on a queue whose run loop had
 	// already exited (region of the known finding C16-F1)
 	DeadQueueBuild bool
+	// OverRelease: a message queue released more bytes than were accounted to
+	// its peer at that moment (some reservation was returned twice)
+	OverRelease bool
 }
 
 func NewStack(total, perPeer uint64, retries int) *Stack {
@@ -221,7 +224,7 @@ func NewStack(total, perPeer uint64, retries int) *Stack {
 	s.Alloc = allocator.NewAllocator(total, perPeer)
 	s.PMM = peermanager.NewMessageManager(ctx, func(ctx context.Context, p peer.ID, onShutdown func(peer.ID)) peermanager.PeerQueue {
 		tq := &tagQ{s: s}
-		tq.MessageQueue = messagequeue.New(ctx, p, s.Net, s.Alloc, retries, time.Second, func(p peer.ID) {
+		tq.MessageQueue = messagequeue.New(ctx, p, s.Net, &ledger{s: s}, retries, time.Second, func(p peer.ID) {
 			s.Exited = append(s.Exited, p)
 			tq.exited = true
 			onShutdown(p)
@@ -232,6 +235,22 @@ func NewStack(total, perPeer uint64, retries int) *Stack {
 	s.H = &Handler{pmm: s.PMM, attached: map[*messagequeue.Builder]map[graphsync.RequestID]bool{}}
 	s.RA = responseassembler.New(ctx, s.H)
 	return s
+}
+
+// ledger is the real Allocator as the message queues see it, plus a ghost
+// check: a release never asks for more than is accounted to the peer (the
+// allocator would silently clamp it, hiding a reservation returned twice).
+type ledger struct{ s *Stack }
+
+func (l *ledger) AllocateBlockMemory(p peer.ID, amount uint64) <-chan error {
+	return l.s.Alloc.AllocateBlockMemory(p, amount)
+}
+func (l *ledger) ReleasePeerMemory(p peer.ID) error { return l.s.Alloc.ReleasePeerMemory(p) }
+func (l *ledger) ReleaseBlockMemory(p peer.ID, amount uint64) error {
+	if amount > l.s.Alloc.AllocatedForPeer(p) {
+		l.s.OverRelease = true
+	}
+	return l.s.Alloc.ReleaseBlockMemory(p, amount)
 }
 
 // tagQ is the real MessageQueue plus a ghost bit telling whether its run loop
